@@ -16,3 +16,5 @@ open GoguVerif.Theorems.C10
 #print axioms ever_is_distinct_keys_put
 #print axioms height_bound
 #print axioms height_bound_strong
+#print axioms fillAsc_exec
+#print axioms dropAsc_exec
